@@ -189,7 +189,8 @@ CHECKS = {
              "verdict of the call (C18_manual_precondition_verdict, C18_manual_postcondition_verdict). Tie: the lists "
              "found through find_checker equal the effective contracts computed from the declarations (spec_C04); find_checker returns the wrapper whose code evaluates the contracts (spec_C18_introspection); every "
              "class created through DBCMeta is announced exactly once, in order (spec_C18_registered).",
-        note=TB + "Registration is checked by correspondence, not proved.", design="DESIGN.md section 6 C18"),
+        note=TB + "Registration: C18_registered_are_the_meta_classes (in every reachable world the registrations are the "
+             "numbers of the meta classes, ascending; Proofs/ElabRegistered.v) plus the correspondence.", design="DESIGN.md section 6 C18"),
     "C19": dict(
         text="Theorems (case analysis over Model/Elab.v and the guards of checker_call): invalid decorators abort the "
              "definition with their documented exception before anything is decorated, _ARGS/_KWARGS parameters are a "
